@@ -14,9 +14,9 @@ from ..common import Violation, must_not_raise
 PROP = 'C14'
 EXAMPLES = {'quick': 110, 'thorough': 2500}
 RULE = (
-    'Layer 1 (sweep, exhaustive within the grammar): every string L,R->O with L a permutation of a 2-3 letter subset '
-    'of {h,i,j,k}, R and O permutations of 1-2 letter subsets, each side with an optional "..." at its start or end, '
-    'that numpy.einsum itself accepts. For each, furax\'s subscript rewriting either raises (allowed outside the must-'
+    'Layer 1 (sweep, exhaustive within the grammar): every string L,R->O with L a sequence of 2-3 letters of {h,i,j,k} '
+    '(repetitions allowed), R and O sequences of 1-2 letters, each side with an optional "..." at ANY position '
+    '(2 217 984 strings). For each, furax\'s subscript rewriting either raises (allowed outside the must-'
     'accept class) or returns s_T, which must satisfy <einsum(s,B,x),y> == <x,einsum(s_T,B,y)> exactly on integer '
     'arrays; strings in the must-accept class (one contracted letter c in L and R only, one free letter f in L and O '
     'only, nothing else summed, O == R with c replaced by f) must be transposed. The JAX-level operator (mv, T.mv, '
@@ -37,11 +37,14 @@ ELL = (2,)
 
 
 def _sides(n_lo, n_hi):
+    """Letter sequences WITH repetition over {h,i,j,k}, with an optional '...' at any position."""
     out = []
     for n in range(n_lo, n_hi + 1):
-        for p in itertools.permutations(LETTERS, n):
+        for p in itertools.product(LETTERS, repeat=n):
             w = ''.join(p)
-            out += [w, '...' + w, w + '...']
+            out.append(w)
+            for pos in range(n + 1):
+                out.append(w[:pos] + '...' + w[pos:])
     return out
 
 
@@ -55,13 +58,10 @@ def all_strings():
 
 
 def _shape(side, ell=ELL):
-    letters = side.replace('...', '')
-    sh = tuple(SIZE[c] for c in letters)
-    if side.startswith('...'):
-        return ell + sh
-    if side.endswith('...'):
-        return sh + ell
-    return sh
+    if '...' in side:
+        a, b = side.split('...')
+        return tuple(SIZE[c] for c in a) + tuple(ell) + tuple(SIZE[c] for c in b)
+    return tuple(SIZE[c] for c in side)
 
 
 def parse(s):
@@ -80,6 +80,10 @@ def numpy_accepts(s):
 
 
 def must_accept(s) -> bool:
+    return _must_accept_form(s) and numpy_accepts(s) is not None
+
+
+def _must_accept_form(s) -> bool:
     l, r, o = parse(s)
     L, R, O = l.replace('...', ''), r.replace('...', ''), o.replace('...', '')
     if len(set(L)) != len(L) or len(set(R)) != len(R) or len(set(O)) != len(O):
@@ -114,21 +118,29 @@ def adjoint_ok(s, sT, seed=1):
 
 
 def sweep(tier, mode, shard, nshards):
+    """Every string of the grammar is submitted to furax' rewriting here; the ones it rejects outside the
+    must-accept class need no further judgement (rejection is allowed there) and are only counted."""
     if mode != 'x32':
         return
-    n = 0
-    valid = 0
+    from furax._base.dense import DenseBlockDiagonalOperator as D
+
+    n = rejected = 0
     for idx, s in enumerate(all_strings()):
         if idx % nshards != shard:
             continue
         n += 1
-        if numpy_accepts(s) is None:
+        try:
+            D._get_transposed_subscripts(s)
+            accepted = True
+        except Exception:  # noqa: BLE001
+            accepted = False
+        if not accepted and not must_accept(s):
+            rejected += 1
             continue
-        valid += 1
         h = sum(ord(ch) * (i + 1) for i, ch in enumerate(s))
         yield {'kind': 'string', 's': s, 'jax': tier == 'thorough' or (h + 7) % 10 == 0}
     yield {'__sweep_meta__': True, 'exhaustive': True,
-           'extra': {'grammar_strings_enumerated': n, 'numpy_valid_strings': valid}}
+           'extra': {'grammar_strings_enumerated': n, 'rejected_outside_must_accept_class': rejected}}
 
 
 # ---------------------------------------------------------------------------------------------
@@ -242,7 +254,14 @@ def check(recipe, mode):
                 raise Violation('must-accept-rejected', f'{s!r}: {type(e).__name__}: {e}')
             return {'nontrivial': False, 'classes': classes + ['rejected:' + type(e).__name__]}
         classes.append('accepted')
-        if not adjoint_ok(s, sT, 1) or not adjoint_ok(s, sT, 4):
+        if numpy_accepts(s) is None:
+            # not a valid einsum string at all (e.g. a repeated output letter): the operator cannot be applied either
+            return {'nontrivial': False, 'classes': classes + ['not_a_valid_einsum']}
+        try:
+            ok = adjoint_ok(s, sT, 1) and adjoint_ok(s, sT, 4)
+        except Exception as e:  # noqa: BLE001  (the rewritten subscripts do not even fit the block array)
+            raise Violation('wrong-transpose', f'{s!r} -> {sT!r} cannot be applied to the same blocks: {type(e).__name__}: {str(e)[:120]}')
+        if not ok:
             raise Violation('wrong-transpose', f'{s!r} -> {sT!r} is not the adjoint')
         if recipe.get('jax'):
             l, r, o = parse(s)
